@@ -85,8 +85,15 @@ def normalize_life(trace, nsub, app="a1"):
            _rec(g="loop", ev="sub.loop", arm="pause")]
     tr = trace or []
     started = False
+    first_loop = True
     for i, e in enumerate(tr):
         g, ev = e.get("g"), e.get("ev")
+        if g == "loop" and first_loop:
+            # the loop's first event (arm=pause, the signal of NewClient) is the synthetic record above,
+            # wherever the goroutine got round to it
+            first_loop = False
+            if ev == "sub.loop" and e.get("arm") == "pause":
+                continue
         if ev == "replay.start":
             started = True
             continue
@@ -142,3 +149,131 @@ def normalize_life(trace, nsub, app="a1"):
         elif r["g"] == app and r["ev"] in APP_HOOKS:
             r["id"] = n
     return out
+
+
+SUPPORTED_AT = {"idle", "m.dial", "m.done", "m.psend", "m.psent", "m.rsend", "createSecureChannel", "restoreSession",
+                "recreateSession", "transferSubscriptions", "restoreSubscriptions"}
+
+
+def fault_rows(behs):
+    """distinct (script, fault sequence) rows of generated behaviours with the ends the model predicts"""
+    rows = {}
+    for b in behs:
+        sc = scripts_of(b).get("a1", [])
+        items = [{"k": f["k"], "at": f["at"]} for f in b["fseq"]]
+        if not items or any(i["at"] not in SUPPORTED_AT for i in items):
+            continue
+        if b["stuck"] or b["lostresume"]:
+            continue   # schedule-dependent ends are the business of C27
+        key = json.dumps([sc, items])
+        r = rows.setdefault(key, {"script": [c for c in sc if c != "close"], "items": items, "lost": False, "closed": False})
+        r["lost"] = r["lost"] or bool(b["lost"])
+        r["closed"] = r["closed"] or bool(b["closed"])
+    return list(rows.values())
+
+
+def run_faults(run, vf, prop):
+    """common body of C25 / C26"""
+    import re
+    q = run.quick()
+    exe = [None]
+    jobs = [
+        lambda: run.tlc("ClientConn", "ClientConnMC", "C25_contract_quick.cfg" if q else "C25_contract.cfg", timeout=3000,
+                        workers=4 if q else 12,
+                        label="contract: documented transitions, Closed after Close, no dial after Close, subscriptions survive, acks once"),
+        lambda: run.tlc("ClientConn", "ClientConnMC", "C25_gen.cfg", mode="gen", count=False, timeout=3000,
+                        simulate=run.pick(250, 3000), depth=150, label="as-is model: seeded sample of fault scenarios"),
+        lambda: exe.__setitem__(0, run.go_build("clientconn")),
+    ]
+    if prop == "C25":
+        jobs.append(lambda: run.tlc("ClientConn", "ClientConnMC", "C25_dev_armclose.cfg", expect="violation", count=False, timeout=1500, workers=2,
+                                    label="deviation demo: reconnect arm ignores Close -> Closed->Reconnecting"))
+    else:
+        jobs.append(lambda: run.tlc("ClientConn", "ClientConnMC", "C26_dev_restore.cfg", expect="violation", count=False, timeout=1500, workers=2,
+                                    label="deviation demo: restored session does not resume -> InvSubsSurvive"))
+    res = run.parallel(*jobs)
+    rows = fault_rows(res[1].rows)
+    if prop == "C26":
+        rows = [r for r in rows if r["script"]]
+    kinds = lambda r: json.dumps(sorted({(i["k"], i["at"]) for i in r["items"]})) + str(len(r["script"]))
+    sel = pick(rows, run.pick(10, 70), run.seed, key=kinds)
+    cases = []
+    for i, r in enumerate(sel):
+        cases.append({"id": "f%d" % i, "script": r["script"], "items": r["items"], "tries": 2,
+                      "model_lost": r["lost"], "model_closed": r["closed"]})
+    run.log("TLC: %d sampled behaviours -> %d distinct fault scenarios, running %d" % (len(res[1].rows), len(rows), len(cases)))
+    if not cases:
+        raise vf.Inconclusive("no fault scenario generated")
+    results = run.go_run(exe[0], ["-mode", "faults", "-par", str(run.pick(5, 10))], cases=cases, timeout=run.pick(1200, 3300))
+    if len(results) != len(cases):
+        raise vf.Inconclusive("harness returned %d results for %d cases" % (len(results), len(cases)))
+    byid = {c["id"]: c for c in cases}
+    traces = []
+    for r in results:
+        obs = r.get("obs") or {}
+        tr = obs.pop("trace", None)
+        c = byid.get(r["case"], {})
+        mine = [v for v in obs.get("violations", []) if v["property"] == prop]
+        if r["status"] == "violation":
+            r["status"] = "ok"
+            r["key"] = r["detail"] = None
+        for v in mine:
+            run.violation(v["key"], v["detail"], case={"script": c.get("script"), "items": c.get("items")})
+        if tr and r["status"] == "ok":
+            recs = normalize_life(tr, len(c.get("script", [])))
+            traces.append((r["case"], "\n".join(json.dumps(x) for x in recs) + "\n", len(recs)))
+    run.absorb(results)
+    # one TLC run per scenario (in parallel): a trace the specification cannot explain must not hide the others
+    def validate(t):
+        cid, text, n = t
+        return cid, text, run.tlc("ClientConn", "ClientConnLife", "ClientConnLife.cfg", mode="trace", files={"trace.ndjson": text},
+                                  deque=True, count=True, timeout=1500, label="trace validation of scenario %s (%d events)" % (cid, n))
+    out = []
+    step = run.pick(5, 8)
+    for k in range(0, len(traces), step):
+        out += run.parallel(*[(lambda t=t: validate(t)) for t in traces[k:k + step]])
+    unexplained = 0
+    for cid, text, tv in out:
+        c = byid[cid]
+        seen = set()
+        for m in re.finditer(r'"(UNDOC|AFTERCLOSE|ACKTWICE|ACKMISSING) (\d+) ([^"]*)"', tv.out):
+            what, k, rest = m.group(1), int(m.group(2)), m.group(3)
+            if (what, k) in seen:
+                continue
+            seen.add((what, k))
+            case = {"script": c.get("script"), "items": c.get("items"), "event": k}
+            if prop == "C25" and what == "UNDOC":
+                a, b = rest.split()
+                run.violation("undocumented-transition-%s-to-%s" % (a, b),
+                              "the client reported ConnState %s directly after %s (scenario %s)" % (b, a, json.dumps(case)), case=case)
+            elif prop == "C25" and what == "AFTERCLOSE":
+                w = rest.replace(" ", "-")
+                run.violation("after-close-" + w, "after Close returned the client still reported/attempted: %s (scenario %s)" % (rest, json.dumps(case)), case=case)
+            elif prop == "C26" and what == "ACKTWICE":
+                run.violation("acknowledgement-repeated-after-answered-request", "sub/seq %s acknowledged again (scenario %s)" % (rest, json.dumps(case)), case=case)
+            elif prop == "C26" and what == "ACKMISSING":
+                run.violation("acknowledgement-missing-in-next-publish-request", "sub/seq %s not acknowledged with the next PublishRequest (scenario %s)" % (rest, json.dumps(case)), case=case)
+        if tv.ok:
+            run.cov["traces_validated_against_impl"] += 1
+        elif "STUCK" in tv.out:
+            # The free-running trace is not explained by the as-is model.  Known gap: status errors that
+            # reach sechanErr outside a reconnect are not modelled.  Logged, counted, not a verdict.
+            unexplained += 1
+            k = stuck_index(tv.out)
+            run.save_text("trace-unexplained-%s.ndjson" % cid, text)
+            run.notes.append("scenario %s %s: trace not explained from event %s on" % (cid, json.dumps(c.get("items")), k))
+        else:
+            run.save_text("tlc-life-%s.out" % cid, tv.out)
+            raise vf.Inconclusive("trace validation did not run: %s" % (tv.error,))
+    run.cov["traces_unexplained"] = unexplained
+    if traces and unexplained * 2 > len(traces):
+        raise vf.Inconclusive("%d of %d recorded traces are not explained by the specification" % (unexplained, len(traces)))
+    run.cov["rule"] = ("one case per distinct (subscribe calls, fault sequence with injection points, Close point) generated by TLC "
+                       "from the as-is model; class = that tuple")
+    run.cov["scenarios_generated"] = len(rows)
+    run.assumptions += [
+        "back to Connected within 40 s after the last fault (ReconnectInterval 100 ms, loaded machine); notifications again within 12 s (value changes every 40 ms)",
+        "after Close: state and connection attempts observed for 1.5 s (15 reconnect intervals), goroutines polled for 15 s",
+        "peer is the real gopcua server in a child process: restart = session and subscription loss, reset/outage = session kept; TransferSubscriptions/Republish unsupported",
+        "faults are injected after the Subscribe calls returned; injection points are steady state and the monitor's hook points",
+    ]
